@@ -18,6 +18,7 @@ import time
 import traceback
 
 import numpy as np
+from fractions import Fraction as Fr
 import z3
 
 from . import smt, zeval
@@ -276,6 +277,16 @@ class H:
             env = self.ex.witness_env() if self.ex is not None else None
         except Exception:   # noqa
             env = None
+        if env is None and self.ex is not None and (self.ex.pc or self.ex.assume_list):
+            # no sampled witness (typically a path through an EQUALITY, e.g. a tie between two edge lengths): ask the solver for a
+            # point on the path; variables the model leaves free keep their nominal values
+            try:
+                fs = list(self.ex.assume_list) + list(self.ex.pc) + list(self.ex.hyps_a())
+                v = smt.run_members([('path-model-nlsat', 'nlsat', fs), ('path-model-default', 'default', fs)], (3000, 15000))
+                if v.verdict == 'sat' and v.env:
+                    env = {k: v.env.get(k, Fr(float(n_))) for k, n_ in self.ex.vars.items()}
+            except Exception:   # noqa
+                env = None
         return {k: str(x) for k, x in env.items()} if env else {}
 
     def sample(self, obj):
